@@ -206,6 +206,140 @@ def _confirm_on_real(ctx, wd, tasks, maxw, cap, sem_cls):
             ctx.note(f"counter-example for {inv} of the CancelSafe=FALSE model is not a behaviour of the real class (followed={followed})")
 
 
+
+# ---- the call sites: SourceCopier._copy_file / _copy_part with a fault at every await point ------------------------------------
+def call_site_stage(ctx, wd):
+    """Runs the real copier functions that hold the transfer semaphore over a fake file system whose k-th operation raises an
+    error / a time-out / cancels the running task; TLC (WSemSite.tla) judges the semaphore's value afterwards."""
+    import asyncio
+
+    from hailtop.aiotools.fs import copier as C
+    from hailtop.aiotools.weighted_semaphore import WeightedSemaphore
+
+    class Injected(OSError):
+        pass
+
+    def make(fault, at):
+        st = {"n": 0, "hit": False}
+
+        async def point():
+            k = st["n"]
+            st["n"] += 1
+            st["max"] = max(st.get("max", 0), st["cap"] - st["sem"].value)
+            if fault != "none" and k == at:
+                st["hit"] = True
+                if fault == "error":
+                    raise Injected("injected")
+                if fault == "timeout":
+                    raise asyncio.TimeoutError()
+                asyncio.current_task().cancel()
+                await asyncio.sleep(0)
+
+        class Src:
+            def __init__(self, data):
+                self.data, self.pos = data, 0
+
+            async def __aenter__(self):
+                await point()
+                return self
+
+            async def __aexit__(self, *a):
+                await point()
+                return False
+
+            async def read(self, n):
+                await point()
+                b = self.data[self.pos:self.pos + n]
+                self.pos += len(b)
+                return b
+
+            async def readexactly(self, n):
+                return await self.read(n)
+
+        class Dst:
+            async def __aenter__(self):
+                await point()
+                return self
+
+            async def __aexit__(self, *a):
+                await point()
+                return False
+
+            async def write(self, b):
+                await point()
+                return len(b)
+
+        class FS:
+            async def open(self, f):
+                await point()
+                return Src(b"x" * 10)
+
+            async def open_from(self, f, start, *, length=None):
+                await point()
+                return Src(b"y" * (length or 4))
+
+            async def create(self, f, retry_writes=True):
+                await point()
+                return Dst()
+
+            async def makedirs(self, *a, **k):
+                await point()
+
+        class Parts:
+            async def create_part(self, number, start, size_hint=None):
+                await point()
+                return Dst()
+
+        return st, FS(), Parts()
+
+    cap = 2 * C.Copier.BUFFER_SIZE
+    cases = []
+    for fn in ("_copy_file", "_copy_part"):
+        for fault in ("none", "error", "timeout", "cancel"):
+            for at in range(0, 1 if fault == "none" else 14):
+                st, fs, parts = make(fault, at)
+                loop = VLoop()
+                sem = loop.call_in_loop(lambda: WeightedSemaphore(cap))
+                st["sem"], st["cap"] = sem, cap
+                seen = st
+                real_acquire = sem.acquire
+
+                sc = object.__new__(C.SourceCopier)
+                sc.router_fs, sc.xfer_sema = fs, sem
+                rep = C.SourceReport("src")
+
+                async def run():
+                    try:
+                        if fn == "_copy_file":
+                            await sc._copy_file(rep, "src", 10, "dest")
+                        else:
+                            await sc._copy_part(rep, 4, "src", 1, 4, parts, False)
+                    finally:
+                        pass
+
+                t = loop.create_task(run())
+                for _ in range(10000):
+                    if not loop.step():
+                        break
+                ended = t.done()
+                if ended and not t.cancelled():
+                    t.exception()
+                cases.append({"fn": fn, "fault": fault, "at": at, "capacity": cap, "final": sem.value, "maxinuse": seen.get("max", 0),
+                              "ended": ended, "hit": st["hit"], "points": st["n"]})
+                loop.dispose()
+    env = {"WS_CASES": wd / "site_cases.ndjson", "WS_VERDICT": wd / "site_verdict.json"}
+    env["WS_CASES"].write_text("\n".join(json.dumps(c) for c in cases) + "\n")
+    tlc.evaluate(wd, "WSemSite", env=env)
+    v = json.loads(env["WS_VERDICT"].read_text())
+    assert v["n"] == len(cases)
+    if v["faulted"] < 12:
+        raise RuntimeError(f"vacuous call-site stage: only {v['faulted']} runs met their fault")
+    for i in v["bad"]:
+        c = cases[i - 1]
+        ctx.violation(f"site:{c['fn']}:{c['fault']}:{'leak' if c['final'] != c['capacity'] else ('over' if c['maxinuse'] > c['capacity'] else 'hung')}", c)
+    ctx.cov["call_sites"] = {"runs": len(cases), "runs_that_met_their_fault": v["faulted"], "functions": ["SourceCopier._copy_file", "SourceCopier._copy_part"]}
+    return len(cases)
+
 def run(ctx):
     loader.install()
     from hailtop.aiotools.weighted_semaphore import WeightedSemaphore
@@ -339,7 +473,8 @@ def run(ctx):
         ctx.violation(f"trace:{v.kind}:{v.name}:{what}",
                       {"trace_id": tid, "position": l, "next_event": nxt, "spec_state": view(tlaval.to_py(last)),
                        "events": [(x["a"], x["t"], x["w"]) for x in evs[:l]]})
-    ctx.cov["traces_validated_against_impl"] = ntr + sum(s["walks"] for s in ctx.cov.get("graph_replay", []))
+    nsite = call_site_stage(ctx, wd)
+    ctx.cov["traces_validated_against_impl"] = ntr + nsite + sum(s["walks"] for s in ctx.cov.get("graph_replay", []))
     ctx.cov["trace_events"] = nev
     ctx.cov["trace_actions"] = nact
     ctx.cov["evaluations"] = nev + total_edges
